@@ -15,7 +15,7 @@ from ..core import Check, audit
 from ..lean import MachineryError, hx
 from ..model import W, cmd_argv, put_argv, snapshot_rows, world_from_state
 from ..runner import driver, jsonable, run_tasks, task_rng
-from ..sandbox import MODEL_ROOT as R
+from ..sandbox import CLOCK_T0, MODEL_ROOT as R
 from ..worldgen import make_entry
 
 LEVEL_NOTE = ("theorems: trash-list is a function of the bag (one event per info name, no call); the put core adds exactly one "
@@ -127,7 +127,8 @@ def history(task):
             if e is not None and not e["ok"]:
                 problems.append("step %d %s: %s" % (k, cmd, e["verdict"]))
         else:
-            now = datetime.datetime.now() + datetime.timedelta(days=rng.choice([0, 1, 2]))
+            # (the sandbox clock of trash-put starts at CLOCK_T0 and moves one hour per mutating call)
+            now = CLOCK_T0 + datetime.timedelta(days=rng.choice([0, 1, 2, 3, 30]), hours=rng.choice([0, 5, 13]))
             days = rng.choice([None, 0, 1, 1, 3])
             o = {"now": [now.year, now.month, now.day, now.hour, now.minute, now.second]}
             if days is not None:
@@ -174,10 +175,18 @@ def run(tier, seed):
             ck.disagreement("Model vs trashcli in a history (%s: %s)" % (step, m["what"]), {"task": r["task"], "steps": r["steps"], "world": r.get("last_world"), "difference": m})
         for p in r["problems"]:
             ck.violation(re.sub(r"\d+", "N", p)[:70], {"oracle": "history"}, {"task": r["task"], "steps": r["steps"], "problem": p, "world": r.get("last_world")})
+    # histories with simultaneous puts: 2-3 real trash-put processes interleaved call by call, then trash-list
+    from . import parworlds
+    parworlds.add_concurrent(ck, tier, seed + 303, oracles=("C01", "C09-listing", "no-traceback", "exit", "confinement"),
+                             n_quick=60, n_thorough=1000, follow="list")
     return ck.finish(info, LEVEL_NOTE, RULE)
 
 
 def replay(path):
+    from . import parworlds
+    rc = parworlds.replay_concurrent("C09", path, oracles=("C01", "C09-listing", "no-traceback", "exit", "confinement"))
+    if rc is not None:
+        return rc
     import json
     obj = json.load(open(path))
     tasks = []
